@@ -82,9 +82,14 @@ def evaluate_z3_expression(
 
     def not_implemented_failure(*_) -> Failure[NotImplementedError]:
         logger = logging.getLogger("Z3 evaluation")
-        logger.debug("Evaluation of expression %s not implemented.", expr)
+        try:
+            expr_str = str(expr)
+        except z3.Z3Exception:
+            # z3's pretty printer cannot print (re.loop r lo hi) with term arguments
+            expr_str = expr.sexpr()
+        logger.debug("Evaluation of expression %s not implemented.", expr_str)
         return Failure(
-            NotImplementedError(f"Evaluation of expression {expr} not implemented.")
+            NotImplementedError(f"Evaluation of expression {expr_str} not implemented.")
         )
 
     return (
